@@ -225,7 +225,9 @@ func c06RestartSites(c *Ctx) {
 
 // c06BatchBinding: every store into the participant record is reached only via the edge
 // request.BatchID == payload.SigningProposalPayload.BatchID.
-func c06BatchBinding(c *Ctx, cb *ssa.Function) {
+func c06BatchBinding(c *Ctx, cb *ssa.Function) { c06BatchBindingRule(c, cb, "C06/R3") }
+
+func c06BatchBindingRule(c *Ctx, cb *ssa.Function, rule string) {
 	r := c.R
 	var eq []ssax.Edge
 	for _, cd := range ssax.Conds(cb) {
@@ -264,10 +266,10 @@ func c06BatchBinding(c *Ctx, cb *ssa.Function) {
 	key := load.FuncName(cb)
 	key = key[strings.LastIndex(key, ".")+1:]
 	if len(stores) == 0 {
-		r.Unknown("C06/R3", "signing_proposal_fsm."+key+":batch-binding", "callback stores the contribution", c.Pos(cb.Pos()), "no stores found")
+		r.Unknown(rule, "signing_proposal_fsm."+key+":batch-binding", "callback stores the contribution", c.Pos(cb.Pos()), "no stores found")
 		return
 	}
-	r.Check(bad == "", "C06/R3", "signing_proposal_fsm."+key+":batch-binding",
+	r.Check(bad == "", rule, "signing_proposal_fsm."+key+":batch-binding",
 		"a partial signature is counted only if its BatchID equals the current batch's", c.Pos(cb.Pos()),
 		"no comparison of request.BatchID with payload.SigningProposalPayload.BatchID dominates the store at "+bad+": a contribution made for a different batch is accepted and counted")
 }
@@ -351,10 +353,7 @@ func c06CollectedAlwaysRestarts(c *Ctx, rule string, fn *ssa.Function) {
 		r.Unknown(rule, "node.processMessage:collected-always-restarts", "processMessage has a main Do, a restart and a final SaveFSM", c.Pos(fn.Pos()), "anchors not found")
 		return
 	}
-	var ne []ssax.Edge
-	for _, e := range respStateEdges(fn, stSigningCollected) {
-		ne = append(ne, ssax.Edge{From: e.From, Succ: 1 - e.Succ})
-	}
+	ne := respStateAssume(fn, stSigningCollected)
 	bad := false
 	for _, sv := range saves {
 		if !ssax.ReachableFrom(fn, mainDo, sv, nil, nil) {
